@@ -4,7 +4,7 @@ use fluent_syntax::parser::{parse, parse_runtime};
 use fvh::sexp;
 use fvh::util::*;
 
-fn run(payload: &str) -> String {
+fn run_one(payload: &str) -> String {
     let src = match hex_str(payload) {
         Some(s) => s,
         None => return "bad-case".to_string(),
@@ -18,6 +18,15 @@ fn run(payload: &str) -> String {
         out.push_str(" BORROWED!=OWNED");
     }
     out
+}
+
+/// payload = one hex source, or several separated by `|` (observations joined by ` | `)
+fn run(payload: &str) -> String {
+    payload
+        .split('|')
+        .map(run_one)
+        .collect::<Vec<_>>()
+        .join(" | ")
 }
 
 fn main() {
